@@ -169,7 +169,7 @@ impl Prop for C16 {
     }
     fn runs(&self, tier: Tier) -> u64 {
         match tier {
-            Tier::Quick => 400,
+            Tier::Quick => 1200,
             Tier::Thorough => 12_000,
         }
     }
